@@ -8,6 +8,8 @@ import sys
 
 import driver as D
 
+PYTHON = os.environ.get("VERIF_PYTHON", sys.executable)
+
 
 def build_repo(features, profile, what):
     args, rustflags, sub = D.cargo_profile_args(profile)
@@ -48,6 +50,46 @@ def finish(prop, outdir, profile, res):
                 res[key].append(rec)
 
 
+def run_py_driver(pkg_parent, cases, results, stall_s=40):
+    """Run the Python driver with a watchdog: a call that does not return (or kills the
+    interpreter) is recorded as such and the driver is restarted after it."""
+    import subprocess
+    import time as _t
+    open(results, "w").close()
+    total = sum(1 for _ in open(cases))
+    case_lines = open(cases).read().splitlines()
+    done = 0
+    restarts = 0
+    while done < total and restarts < 50:
+        p = subprocess.Popen([PYTHON, os.path.join(D.VERIF, "tools", "py_driver.py"), pkg_parent, cases, results, str(done)],
+                             stdout=subprocess.DEVNULL, stderr=subprocess.PIPE)
+        last, last_t = done, _t.time()
+        while p.poll() is None:
+            _t.sleep(0.2)
+            n = sum(1 for _ in open(results))
+            if n != last:
+                last, last_t = n, _t.time()
+            elif _t.time() - last_t > stall_s:
+                p.kill()
+                p.wait()
+                break
+        n = sum(1 for _ in open(results))
+        if n >= total:
+            return True, ""
+        # the case in flight hung or crashed the interpreter
+        c = json.loads(case_lines[n])
+        why = "Hang" if p.returncode in (None, -9) else f"InterpreterDied({p.returncode})"
+        rec = {"i": c.get("i", n), "tag": c.get("tag", ""), "case": c, "decode_ok": True,
+               "value_text": c.get("value_text") or c.get("value_json"), "data_text": c.get("data_text") or c.get("data_json"),
+               "outcome": {"exc": why}}
+        with open(results, "a") as f:
+            f.write(json.dumps(rec) + "\n")
+        done = n + 1
+        restarts += 1
+    ok = sum(1 for _ in open(results)) >= total
+    return ok, "" if ok else "too many hangs/crashes in the Python driver"
+
+
 def new_res():
     return {"evaluations": 0, "distinct_nontrivial": 0, "shards": 0, "shards_ok": 0, "corr_fail": [], "spec_fail": [],
             "illformed": [], "errors": [], "dist": {}, "samples": [], "profiles": []}
@@ -76,9 +118,6 @@ def run_c18(prop, tier, seed, count, profiles):
     return res
 
 
-PYTHON = os.environ.get("VERIF_PYTHON", sys.executable)
-
-
 def run_c19(prop, tier, seed, count, profiles):
     res = new_res()
     for profile in profiles:
@@ -104,11 +143,9 @@ def run_c19(prop, tier, seed, count, profiles):
         if rc != 0:
             res["errors"].append(f"case generation failed: {out[-1000:]}")
             continue
-        rc, out = D.sh([PYTHON, os.path.join(D.VERIF, "tools", "py_driver.py"), pkg_parent,
-                        os.path.join(outdir, "py_cases.jsonl"), os.path.join(outdir, "py_results.jsonl")], timeout=3000)
-        if rc != 0:
-            # the interpreter itself died or the module does not import: that is a C19 failure
-            res["errors"].append(f"the Python driver failed (rc={rc}): {out[-1500:]}")
+        ok, msg = run_py_driver(pkg_parent, os.path.join(outdir, "py_cases.jsonl"), os.path.join(outdir, "py_results.jsonl"))
+        if not ok:
+            res["errors"].append(f"the Python driver failed: {msg}")
             continue
         rc, out = D.sh(base + ["--stage", "emit"], timeout=600)
         if rc != 0:
@@ -159,10 +196,9 @@ def cross_entry(prop, tier, seed, count, profiles, res):
     if rc != 0:
         res["errors"].append(f"cross-entry case generation failed: {out[-1000:]}")
         return
-    rc, out = D.sh([PYTHON, os.path.join(D.VERIF, "tools", "py_driver.py"), pkg_parent,
-                    os.path.join(outdir, "py_cases.jsonl"), os.path.join(outdir, "py_results.jsonl")], timeout=3000)
-    if rc != 0:
-        res["errors"].append(f"the Python driver failed (rc={rc}): {out[-1500:]}")
+    ok, msg = run_py_driver(pkg_parent, os.path.join(outdir, "py_cases.jsonl"), os.path.join(outdir, "py_results.jsonl"))
+    if not ok:
+        res["errors"].append(f"the Python driver failed: {msg}")
         return
     rc, out = D.sh(base + ["--stage", "emit"], timeout=600)
     if rc != 0:
